@@ -17,6 +17,14 @@ import (
 func init() {
 	Register("C09", checkC09)
 	dumpers["guards"] = dumpGuards
+	dumpers["decide"] = func(P *load.Program, args []string) {
+		E := guardsEngine(P)
+		for f := range ssautil.AllFunctions(P.SSA) {
+			if load.InModule(f) && f.Blocks != nil && len(args) > 0 && strings.Contains(f.String(), args[0]) {
+				fmt.Println(f.String(), "::", E.DescribeDecision(f))
+			}
+		}
+	}
 }
 
 var (
